@@ -6,8 +6,8 @@
    reach the store, [store_ok] which indexes accept their batch.  [handle_prefix] is
    the code before the fix. *)
 From Coq Require Import Permutation.
-From SigM Require Import Base Bulk BulkPool BulkAlias.
-From SigP Require Import BaseProofs BulkProofs BulkPoolProofs BulkAliasProofs.
+From SigM Require Import Base Bulk BulkPool BulkAlias BulkConc.
+From SigP Require Import BaseProofs BulkProofs BulkPoolProofs BulkAliasProofs BulkConcProofs.
 Open Scope N_scope.
 
 (* ---- one item per action, in request order: the items are, position by position,
@@ -301,3 +301,132 @@ Example C15_alias_history_satisfiable :
    searchable (fst s) ss' 71 = [3] /\ searchable (fst s) ss' 81 = [3] /\
    table_docs ss' 70 = [] /\ table_docs ss' 71 = [] /\ filed_ok ss' = true).
 Proof. vm_compute. repeat split; reflexivity. Qed.
+
+(* ---- bulk requests served AT THE SAME TIME (SigM.BulkConc).  Every request hands its groups
+   (stream, documents) to AddEntryToInMemBuf; per group three atomic steps: look the stream's store
+   up under the table's read lock, on a miss take the write lock, RE-CHECK the table and create the
+   store only if it is still missing, add the documents under the store's lock.  [sched] ranges over
+   ALL interleavings (lists of request numbers) of ANY number of requests; [crun true] is the code
+   (with the re-check), [crun false] the get-or-create without it; [visible st s] = what the next
+   flush makes searchable for stream s = the documents of the store the TABLE holds for s. ---- *)
+
+(* the invariant of the store table: one store per stream, distinct stores for distinct streams, and
+   every request that stands before AddEntry holds the store the table holds.  It holds in the empty
+   process, when requests arrive, after every step sequence, and when an idle store leaves the table *)
+Theorem C15_concurrent_store_table_invariant :
+  cinv c_empty /\
+  (forall st reqs, cinv st -> cinv (c_arrive st reqs)) /\
+  (forall st sched, cinv st -> cinv (crun true st sched)) /\
+  (forall st s, cinv st -> c_thr st = [] -> cinv (c_drop st s)).
+Proof. exact (conj cinv_empty (conj cinv_arrive (conj (fun st sched H => cinv_run sched st H) cinv_drop))). Qed.
+Print Assumptions C15_concurrent_store_table_invariant.
+
+(* all requests, every interleaving: exactly one store object is ever created per stream *)
+Theorem C15_concurrent_one_store_per_stream : forall reqs sched,
+  let fin := crun true (c_start reqs) sched in
+  NoDup (map fst (c_tbl fin)) /\ c_next fin = length (c_tbl fin).
+Proof. exact one_store_per_stream. Qed.
+Print Assumptions C15_concurrent_one_store_per_stream.
+
+(* every interleaving that lets the requests finish: a stream shows after the next flush what it
+   showed before plus exactly the documents the requests sent to it (count per document: nothing
+   lost in a store nobody visits, nothing doubled) *)
+Theorem C15_concurrent_requests_conserve : forall st reqs sched s d,
+  cinv st ->
+  let fin := crun true (c_arrive st reqs) sched in
+  all_done fin = true ->
+  occ d (visible fin s) =
+  (occ d (visible st s) + occ d (flat_map (fun r => req_docs r s) reqs))%nat.
+Proof. exact concurrent_requests_conserve. Qed.
+Print Assumptions C15_concurrent_requests_conserve.
+
+(* created iff searchable exactly once for every item of every request of a wave of bulk requests
+   ([rs]: for each body any grouping of its stored documents in any order - Go map order), for every
+   interleaving, from any state of the table that satisfies the invariant (first write of a new
+   index, existing store, store removed).  Guards: the documents of the wave are distinct and new. *)
+Theorem C15_concurrent_created_iff_searchable : forall st bs rs sched,
+  cinv st ->
+  Forall2 creq_of bs rs ->
+  NoDup (map snd (flat_map body_docs bs)) ->
+  (forall k s, In k (flat_map body_docs bs) -> occ (snd k) (visible st s) = 0%nat) ->
+  let fin := crun true (c_arrive st rs) sched in
+  all_done fin = true ->
+  forall j b, nth_error bs j = Some b ->
+  forall i a sti, nth_error (actions (body_lines b)) i = Some a ->
+    nth_error (r_items (handle all_ok b)) i = Some sti ->
+    (sti = 201 -> exists idx id, act_doc a = [(idx, id)] /\
+       forall s, occ id (visible fin s) = if s =? idx then 1%nat else 0%nat) /\
+    (sti <> 201 -> forall k, In k (act_doc a) -> forall s, occ (snd k) (visible fin s) = 0%nat).
+Proof. exact concurrent_created_iff_searchable. Qed.
+Print Assumptions C15_concurrent_created_iff_searchable.
+
+Theorem C15_bulk_request_is_concurrent_request : forall b, creq_of b (bulk_creq all_ok b).
+Proof. exact bulk_creq_of. Qed.
+Print Assumptions C15_bulk_request_is_concurrent_request.
+
+(* WITHOUT the re-check after taking the write lock the statement is false: two requests, each one
+   well-formed write into the same new index, both look the stream up before either creates the
+   store: both answered 201 / errors=false, two store objects for one stream, the table keeps the
+   second, and the first request's document is in no store the flush visits *)
+Theorem C15_concurrent_no_recheck_refuted : exists b1 b2 sched id1,
+  let rs := [bulk_creq all_ok b1; bulk_creq all_ok b2] in
+  let fin := crun false (c_start rs) sched in
+  NoDup (map snd (flat_map body_docs [b1; b2])) /\
+  all_done fin = true /\
+  r_items (handle all_ok b1) = [201] /\ r_errors (handle all_ok b1) = false /\
+  r_items (handle all_ok b2) = [201] /\ r_errors (handle all_ok b2) = false /\
+  body_docs b1 = [(7, id1)] /\
+  (forall s, In s [7] -> occ id1 (visible fin s) = 0%nat) /\
+  c_next fin = 2%nat /\ map fst (c_tbl fin) = [7; 7].
+Proof. exact no_recheck_refuted. Qed.
+Print Assumptions C15_concurrent_no_recheck_refuted.
+
+(* the same two requests one after the other lose nothing without the re-check either (sequential
+   request streams cannot see the difference); under the gate's interleaving the re-check keeps
+   both documents and its absence keeps only the second *)
+Example C15_concurrent_recheck_matters_only_under_interleaving :
+  let rs := [bulk_creq all_ok w_conc_a; bulk_creq all_ok w_conc_b] in
+  visible (crun false (c_start rs) w_seq_sched) 7 = [1; 2] /\
+  visible (crun true (c_start rs) w_seq_sched) 7 = [1; 2] /\
+  visible (crun true (c_start rs) w_gate_sched) 7 = [1; 2] /\
+  visible (crun false (c_start rs) w_gate_sched) 7 = [2].
+Proof. exact no_recheck_sequential_is_fine. Qed.
+
+(* ---- the response items of concurrent requests: respItemsPool (SigM.BulkConc, sstate).  The code
+   (after the fix "the bulk response owns its item list", repo 9cbaf3b) collects the items in a slice
+   of respItemsPool, returns a fresh COPY of items[0:inCount] as response["items"] and puts the pooled
+   slice back; [sstep true].  Events of the process: a request starts with ANY pooled slice or a new
+   one, writes an item, returns.  [sstep false] is the code before the fix (the response pointed into
+   the pooled slice). ---- *)
+
+(* the slice a response points into is never in the pool and never held by a request in flight:
+   after EVERY event sequence of the process *)
+Theorem C15_response_slice_invariant : forall evs, sinv (srun true s_empty evs).
+Proof. exact slice_invariant. Qed.
+Print Assumptions C15_response_slice_invariant.
+
+(* full statement: in any reachable state a request returns; whatever the process does afterwards
+   (other requests starting, writing their statuses, returning - before this response is serialised),
+   the response reads what the request's slice held when it returned *)
+Theorem C15_response_items_private : forall before st j b,
+  st = srun true s_empty before ->
+  aget (s_run st) j = Some b ->
+  exists a, aget (s_resp (sstep true st (SReturn j))) j = Some a /\
+    forall after, mget (s_mem (srun true (sstep true st (SReturn j)) after)) a = mget (s_mem st) b.
+Proof. exact response_items_private. Qed.
+Print Assumptions C15_response_items_private.
+
+(* the code before the fix: request 0 (one well-formed write: own item 201, its document stored once)
+   returns; request 1 (a delete) starts, gets the same slice from the pool and writes 400; the
+   response of request 0, not yet serialised, reads 400 *)
+Theorem C15_prefix_response_items_overwritten_refuted : exists before j b after a k,
+  let st := srun false s_empty before in
+  aget (s_run st) j = Some b /\
+  aget (s_resp (sstep false st (SReturn j))) j = Some a /\
+  firstn 1 (mget (s_mem st) b) = r_items (handle all_ok w_conc_a) /\
+  r_items (handle all_ok w_conc_a) = [201] /\
+  count_occ key_dec (r_stored (handle all_ok w_conc_a)) k = 1%nat /\
+  firstn 1 (mget (s_mem (srun false (sstep false st (SReturn j)) after)) a) = [400] /\
+  slice_response false [201] [[400]] = [400] /\ slice_response true [201] [[400]] = [201].
+Proof. exact prefix_response_items_overwritten_refuted. Qed.
+Print Assumptions C15_prefix_response_items_overwritten_refuted.
